@@ -1537,6 +1537,13 @@ func (l *lexer) linebreak() bool {
 			hash = false
 			l.comment()
 			l.mark(0)
+		case '\t', ' ':
+			// <blank>
+			if hash {
+				l.b.WriteRune(r)
+			} else {
+				l.mark(0)
+			}
 		case '#':
 			// comment
 			if hash {
